@@ -45,6 +45,8 @@ func init() {
 				Old: "\t\t\trendered[responseCacheFooterStart:],\n\t\t\tundefinedVariables,\n\t\t\tl.ctx.Extensions,\n\t\t)\n\t\tresponseCacheItemHash :=", New: "\t\t\trendered[responseCacheFooterStart:],\n\t\t\tnil,\n\t\t\tl.ctx.Extensions,\n\t\t)\n\t\tresponseCacheItemHash :="},
 			{Name: "non-positive default TTL replaced by one minute (seeded change C16-13)", File: "v2/pkg/engine/resolve/context.go", Rule: "C16-R1", Key: "SetResponseCache/default-ttl-is-the-configured-value",
 				Old: "\tc.responseCache = &responseCache{store: cache, defaultTTL: defaultTTL, onError: onError}", New: "\tif defaultTTL <= 0 {\n\t\tdefaultTTL = time.Minute\n\t}\n\tc.responseCache = &responseCache{store: cache, defaultTTL: defaultTTL, onError: onError}"},
+			{Name: "responses with a Vary header are stored again (reverts the F91 fix)", File: ttlGo, Rule: "C16-R1", Key: "TTL/ok-requires:vary absent",
+				Old: "\tif len(headers.Values(\"Vary\")) != 0 {\n", New: "\tif len(headers.Values(\"Vary\")) != 0 && false {\n"},
 			{Name: "private no longer refuses storing", File: ttlGo, Rule: "C16-R1", Key: "private",
 				Old: "if cc.NoCache != nil || cc.Private != nil {", New: "if cc.NoCache != nil {"},
 			{Name: "public no longer required", File: ttlGo, Rule: "C16-R1", Key: "public",
@@ -81,7 +83,7 @@ func runC16(r *fw.Run) {
 	defer c16OptionalCallbacksNilChecked(r)
 	defer c16FollowerMirrorsLeader(r)
 	// ---- R1 storability decision --------------------------------------------------------------
-	r.Rule("C16-R1", "caching.TTL returns ok only when the header parsed ∧ !no-store ∧ no-cache absent ∧ private absent ∧ public, and the duration is s-maxage, else max-age, else the default, each tested > 0")
+	r.Rule("C16-R1", "caching.TTL returns ok only when the header parsed ∧ !no-store ∧ no-cache absent ∧ private absent ∧ public ∧ no Vary header (the key holds no request headers), and the duration is s-maxage, else max-age, else the default, each tested > 0")
 	if fi := p.Func("caching", "TTL"); fi == nil {
 		r.Error("C16-R1: caching.TTL not found")
 	} else {
@@ -108,6 +110,37 @@ func runC16(r *fw.Run) {
 			fw.GuardSpec{Name: "no-cache absent", Match: ccField("Nil", "NoCache")},
 			fw.GuardSpec{Name: "private absent", Match: ccField("Nil", "Private")},
 			fw.GuardSpec{Name: "public present", Match: ccField("True", "Public")},
+			fw.GuardSpec{Name: "vary absent", Match: func(info *types.Info, a fw.CondAtom) bool {
+				// len(headers.Values("Vary")) == 0, headers.Get("Vary") == "", len(headers["Vary"]) == 0
+				switch a.Kind {
+				case "Empty":
+				case "Eq":
+					if v, ok := fw.ConstVal(info, a.Y); !ok || (v != "0" && v != `""`) {
+						return false
+					}
+				default:
+					return false
+				}
+				found := false
+				fw.WalkAll(a.X, func(nd ast.Node) bool {
+					var key ast.Expr
+					switch x := nd.(type) {
+					case *ast.CallExpr:
+						if fn := fw.Callee(info, x); fn != nil && fn.Pkg() != nil && fn.Pkg().Path() == "net/http" && (fn.Name() == "Values" || fn.Name() == "Get") && len(x.Args) == 1 {
+							key = x.Args[0]
+						}
+					case *ast.IndexExpr:
+						key = x.Index
+					}
+					if key != nil {
+						if v, ok := fw.ConstVal(info, key); ok && strings.EqualFold(strings.Trim(v, `"`), "vary") {
+							found = true
+						}
+					}
+					return true
+				})
+				return found
+			}},
 			fw.GuardSpec{Name: "s-maxage present", Match: ccField("NonNil", "SMaxAge")},
 			fw.GuardSpec{Name: "s-maxage absent", Match: ccField("Nil", "SMaxAge")},
 			fw.GuardSpec{Name: "max-age present", Match: ccField("NonNil", "MaxAge")},
@@ -134,7 +167,7 @@ func runC16(r *fw.Run) {
 					return
 				}
 				nOK++
-				base := []string{"parsed", "no-store absent", "no-cache absent", "private absent", "public present"}
+				base := []string{"parsed", "no-store absent", "no-cache absent", "private absent", "public present", "vary absent"}
 				for _, name := range base {
 					r.Check(g.Has(st, name), "C16-R1", "TTL/ok-requires:"+name, p.Pos(ret.Pos()), "TTL returns ok only when "+name,
 						"a storable verdict is reachable on a path that did not establish '"+name+"': responses the origin did not release for shared caching are stored")
